@@ -77,14 +77,34 @@ func specAnswers(spec string, reqs []string) ([]string, error) {
 	return ls, nil
 }
 
-// nonBlankAfter[i] = number of non-blank lines among lines[i:] (0-based)
-func nonBlankSuffix(lines []string) []int {
-	out := make([]int, len(lines)+1)
-	for i := len(lines) - 1; i >= 0; i-- {
-		out[i] = out[i+1]
-		if strings.TrimSpace(lines[i]) != "" {
-			out[i]++
+// posKeys[i] identifies line i (0-based) by what follows it: the number of top-level function
+// headers (lines starting with "func " in column 0) after it, and the number of non-blank lines
+// from it to the next such header (or the end of the file). Neither the added import, nor
+// blank-line changes, nor the re-formatting of a later one-line function (`func main() { … }`
+// becomes three lines once the service-start block is written into it) disturb these.
+func posKeys(lines []string) [][2]int {
+	out := make([][2]int, len(lines)+1)
+	funcs, dist := 0, 0
+	// the printer may indent the whole file (printerConfigIndent): top level = the indentation
+	// of the package clause
+	base := ""
+	for _, l := range lines {
+		if t := strings.TrimLeft(l, " \t"); strings.HasPrefix(t, "package ") {
+			base = l[:len(l)-len(t)]
+			break
 		}
+	}
+	for i := len(lines) - 1; i >= 0; i-- {
+		if strings.HasPrefix(lines[i], base+"func ") {
+			out[i] = [2]int{funcs, dist + 1}
+			funcs++
+			dist = 0
+			continue
+		}
+		if strings.TrimSpace(lines[i]) != "" {
+			dist++
+		}
+		out[i] = [2]int{funcs, dist}
 	}
 	return out
 }
@@ -92,7 +112,7 @@ func nonBlankSuffix(lines []string) []int {
 // observedBlocks strips the marker blocks from an instrumented file and returns, per
 // +goat:generate block, the number of non-blank user lines that follow it (a position that
 // neither the added import nor blank-line changes disturb), in file order.
-func observedBlocks(content string) (keys []int, blocks int) {
+func observedBlocks(content string) (keys [][2]int, blocks int) {
 	lines := strings.Split(content, "\n")
 	var stripped []string
 	var at []int // index into stripped where a generate block was removed
@@ -115,7 +135,7 @@ func observedBlocks(content string) (keys []int, blocks int) {
 		}
 		stripped = append(stripped, lines[i])
 	}
-	suf := nonBlankSuffix(stripped)
+	suf := posKeys(stripped)
 	for _, k := range at {
 		keys = append(keys, suf[k])
 	}
@@ -199,16 +219,16 @@ func (c *e2eCtx) judgeMarks(s *scenario, pm *predictedMarks, after map[string]st
 			c.count("predict:files-with-single-line-bodies(count only)")
 			continue
 		}
-		suf := nonBlankSuffix(e.lines)
-		var want []int
+		suf := posKeys(e.lines)
+		var want [][2]int
+		sort.Ints(multi)
 		for _, l := range multi {
 			if l >= 1 && l <= len(e.lines) {
 				want = append(want, suf[l-1])
 			}
 		}
-		sort.Sort(sort.Reverse(sort.IntSlice(want)))
 		if fmt.Sprint(want) != fmt.Sprint(got) {
-			c.violate("C03,C09", fmt.Sprintf("%s: tracking blocks are not where the model puts them for the diff's changed lines %v (granularity %s): model lines %v (as distance from the end of the file %v), found blocks at distances %v",
+			c.violate("C03,C09", fmt.Sprintf("%s: tracking blocks are not where the model puts them for the diff's changed lines %v (granularity %s): model lines %v (as [functions after, non-blank lines to the next function] %v), found blocks at %v",
 				e.path, pm.diff[e.path], s.cfg.Granularity, multi, want, got), rp(map[string]any{"file": e.path, "model": a, "content": after[e.path]}))
 		}
 	}
